@@ -58,3 +58,19 @@ def fact(c):
 
 def assume(c):
     pass
+
+
+def is_bool_scalar(v):
+    import numpy as np
+    return isinstance(v, (bool, np.bool_))
+
+
+def is_bool_array(v):
+    import numpy as np
+    return isinstance(v, np.ndarray) and v.dtype == bool
+
+
+def dtype_of(v):
+    import numpy as np
+    k = np.asarray(v).dtype.kind
+    return {'f': 'float', 'i': 'int', 'u': 'int', 'b': 'bool'}.get(k, 'object')
